@@ -1853,10 +1853,12 @@ class LangServer:
         # Recursively add sub-directories that only match Fortran extensions
         if len(self.source_dirs) != 1:
             return None
-        if self.root_path not in self.source_dirs:
+        # `source_dirs` and `excl_paths` hold resolved paths
+        root_path = str(Path(self.root_path).resolve())
+        if root_path not in self.source_dirs:
             return None
         self.source_dirs = set()
-        for root, dirs, files in os.walk(self.root_path):
+        for root, dirs, files in os.walk(root_path):
             # Match not found
             if not list(filter(self.FORTRAN_SRC_EXT_REGEX.search, files)):
                 continue
